@@ -6,6 +6,7 @@ import math
 import multiprocessing as mp
 import os
 import random
+import signal
 import time
 
 from . import symx
@@ -41,6 +42,31 @@ def _val_equal(a, b, tol):
     return a == b
 
 
+PATH_TIMEOUT_S = 600
+
+
+def _on_alarm(_signum, _frame):
+    raise symx.PathTimeout(f"a single path ran longer than {PATH_TIMEOUT_S} s")
+
+
+class _PathClock:
+    """wall-clock limit for one execution of the harness (a mutated tree may loop forever)"""
+
+    def __enter__(self):
+        try:
+            self.old = signal.signal(signal.SIGALRM, _on_alarm)
+            signal.setitimer(signal.ITIMER_REAL, PATH_TIMEOUT_S)
+        except ValueError:  # not in the main thread
+            self.old = None
+        return self
+
+    def __exit__(self, *exc):
+        if self.old is not None:
+            signal.setitimer(signal.ITIMER_REAL, 0)
+            signal.signal(signal.SIGALRM, self.old)
+        return False
+
+
 def _work(task):
     """Explore the subtree below ``prefix`` depth-first for a bounded time."""
     (ref, params, prefix, budget_paths, budget_s, opts) = task
@@ -52,11 +78,12 @@ def _work(task):
     while stack and n < budget_paths and (time.perf_counter() - t0) < budget_s:
         p = stack.pop()
         try:
-            r = symx.run_path(
-                harness, params, p,
-                time_sort=opts["time_sort"], query_timeout_ms=opts["query_timeout_ms"],
-                max_decisions=opts["max_decisions"], isolate_checks=opts.get("isolate_checks", False),
-            )
+            with _PathClock():
+                r = symx.run_path(
+                    harness, params, p,
+                    time_sort=opts["time_sort"], query_timeout_ms=opts["query_timeout_ms"],
+                    max_decisions=opts["max_decisions"], isolate_checks=opts.get("isolate_checks", False),
+                )
         except (KeyboardInterrupt, SystemExit):
             raise
         except BaseException as e:  # pylint: disable=broad-except
@@ -83,7 +110,8 @@ def _work(task):
         }
         if r.status == "done" and opts["validate"] and opts["validate_filter"](p):
             try:
-                c = symx.run_concrete(harness, params, r.inputs, time_sort=opts["time_sort"])
+                with _PathClock():
+                    c = symx.run_concrete(harness, params, r.inputs, time_sort=opts["time_sort"])
             except (KeyboardInterrupt, SystemExit):
                 raise
             except BaseException as e:  # pylint: disable=broad-except
@@ -217,10 +245,20 @@ def explore(ref, params=None, *, workers=None, max_paths=200000, max_wall_s=600,
                     narrow = len(pending) + len(inflight) < workers * 2
                     p = pending.pop(rng.randrange(len(pending)) if seed else -1)
                     bp = 3 if narrow else batch_paths
-                    inflight.append(pool.apply_async(_work, ((ref, params, p, bp, batch_s, opts),)))
+                    a_ = pool.apply_async(_work, ((ref, params, p, bp, batch_s, opts),))
+                    a_.t_submit = time.perf_counter()
+                    a_.prefix = p
+                    inflight.append(a_)
                 still = []
                 progressed = False
                 for a in inflight:
+                    if not a.ready() and time.perf_counter() - a.t_submit > batch_s + 2 * PATH_TIMEOUT_S + 120:
+                        # the worker that held this task died (its result will never arrive)
+                        rep.paths += 1
+                        rep.errors.append(f"task lost: a worker died while exploring below prefix of length "
+                                          f"{len(a.prefix)} (subtree not explored)")
+                        progressed = True
+                        continue
                     if a.ready():
                         recs, rest = a.get()
                         for r in recs:
